@@ -164,10 +164,15 @@ def decide(prop, tier, seed):
                "counterexample": o.get("counterexample"), "tier": tier,
                "sources": [r for rr in results if rr["unit"] == o["unit"] for r in rr.get("sources", [])]}
         suffix = " no-failing-input-found"
+        nr = (o.get("counterexample") or {}).get("native_replay") or {}
+        if nr.get("result") == "FAILED":
+            suffix = ""      # the verifier's values make the extracted real code fail when run natively
         try:
             confirmed = replay_mod.try_replay(rep, snap, work)
             if confirmed:
                 suffix = ""
+            elif nr.get("result") == "FAILED" and rep.get("replays"):
+                rep["replay_note"] = "native replay of the extracted code fails on the verifier's values; the project-level replay on the mos binary did not show a disagreement"
         except Exception as e:
             rep["replay_error"] = repr(e)
         json.dump(rep, open(path, "w"), indent=1)
